@@ -186,10 +186,17 @@ func (n *Node) addrIndex(b *Block) (*database.AddrIndexData, error) {
 		seen[k] = true
 		data.TxIndex[k.sh] = append(data.TxIndex[k.sh], &wire.TxLoc{TxStart: locs[i].TxStart, TxLen: locs[i].TxLen})
 	}
+	// like blockchain.AddrIndexer, an input's previous transaction is looked up among the
+	// EARLIER transactions of this block as well (in-block spend chains)
+	inBlock := map[wire.Hash]*wire.MsgTx{}
 	for i, tx := range b.Msg.Transactions {
+		inBlock[tx.TxHash()] = tx
 		if !blockchain.IsCoinBaseTx(tx) {
 			for _, in := range tx.TxIn {
 				prev := n.Txs[in.PreviousOutPoint.Hash]
+				if prev == nil {
+					prev = inBlock[in.PreviousOutPoint.Hash]
+				}
 				if prev == nil || int(in.PreviousOutPoint.Index) >= len(prev.TxOut) {
 					continue // deliberately malformed sim transactions (C19) are not indexed
 				}
